@@ -276,6 +276,8 @@ class Exec:
 
     # ---------------------------------------------------------------- truthiness / equality
     def truth(self, v: V):
+        if isinstance(v, VTruthy):
+            return v.term
         if isinstance(v, VBool):
             return v.term
         if isinstance(v, VNum):
@@ -371,6 +373,8 @@ class Exec:
             if a.cls == "Ballot" and not self.spec_mode:
                 raise OutOfReach("Ballot == Ballot in code needs the Ballot.__eq__ contract")
             return a.term == b.term
+        if isinstance(a, VFunc) and isinstance(b, VFunc):
+            return a.term == b.term
         if isinstance(a, VDict) and isinstance(b, VDict):
             # equal key sets and equal values on the keys (values off the key set are irrelevant)
             c = z3.Const(S.fresh_name("kd"), S.PyStr)
@@ -446,9 +450,12 @@ class Exec:
         if sp is not None:
             return VFunc(name, impl=sp)
         # repo-level function / class visible in the module under verification
-        tgt = self.ctx.registry.resolve_global(self.relpath, name) if self.ctx.registry else None
-        if tgt is not None:
-            return tgt
+        for rel in (self.relpath, getattr(self, "fallback_relpath", None)):
+            if rel is None or not os.path.exists(os.path.join(SRC, rel)):
+                continue
+            tgt = self.ctx.registry.resolve_global(rel, name) if self.ctx.registry else None
+            if tgt is not None:
+                return tgt
         return None
 
     def e_Tuple(self, n, st):
@@ -518,14 +525,19 @@ class Exec:
             ts = [v.term for v in vals]
             return VBool(z3.And(*ts) if isinstance(n.op, ast.And) else z3.Or(*ts))
         # general: fold with ite on truthiness
-        res = vals[-1]
-        for v in reversed(vals[:-1]):
-            t = self.truth(v)
-            if isinstance(n.op, ast.And):
-                res = self.ite(t, res, v)
-            else:
-                res = self.ite(t, v, res)
-        return res
+        try:
+            res = vals[-1]
+            for v in reversed(vals[:-1]):
+                t = self.truth(v)
+                if isinstance(n.op, ast.And):
+                    res = self.ite(t, res, v)
+                else:
+                    res = self.ite(t, v, res)
+            return res
+        except OutOfReach:
+            # operands of different python types: only the truth value of the result is representable
+            ts = [self.truth(v) for v in vals]
+            return VTruthy(z3.And(*ts) if isinstance(n.op, ast.And) else z3.Or(*ts))
 
     def ite(self, c, a: V, b: V) -> V:
         if z3.is_true(c):
@@ -627,7 +639,7 @@ class Exec:
 
     def _is(self, a, b):
         if isinstance(a, VFunc) and isinstance(b, VFunc):
-            return z3.BoolVal(a.name == b.name)
+            return a.term == b.term
         return self.eq(a, b)
 
     def contains(self, container, item, st):
@@ -1193,6 +1205,13 @@ UNBOUND = _Unbound()
 class MaybeUnbound(V):
     def __init__(self, bound, val):
         self.bound, self.val = bound, val
+
+
+class VTruthy(V):
+    """value of a mixed-type `a and b` / `a or b`: only its truth value may be used"""
+
+    def __init__(self, term):
+        self.term = term
 
 
 class VOpaque(V):
